@@ -83,7 +83,7 @@ func groupName(i int) string {
 // lineGroup is the generic field path of a canonical line (producer maps folded).
 func lineGroup(l string) string {
 	p := l
-	if i := strings.Index(p, " = "); i >= 0 {
+	if i := dposkit.SepIndex(p); i >= 0 {
 		p = p[:i]
 	}
 	return dposkit.FoldProducer(dposkit.Generic(p))
